@@ -1,7 +1,7 @@
 (* C07 property theorems. Statements only; proofs are `exact lemma`. Third-party compressors appear as universally
    quantified functions with their round-trip behaviour as premises. All theorems are for every input (no bound). *)
 From Coq Require Import ZArith List Bool.
-From OG Require Import C07.Model C07.ModelRows C07.ProofsRows C07.ProofsBase C07.ProofsS8 C07.ProofsInt C07.ProofsBool C07.ProofsFloat C07.ProofsString C07.ProofsSeg.
+From OG Require Import C07.Model C07.ModelRows C07.ModelFile C07.ProofsFile C07.ProofsRows C07.ProofsBase C07.ProofsS8 C07.ProofsInt C07.ProofsBool C07.ProofsFloat C07.ProofsString C07.ProofsSeg.
 Import ListNotations.
 Open Scope Z_scope.
 
@@ -157,6 +157,41 @@ Example C07_ex_rows :
   let r2 : rrow := ([109], ([1;2], ([], ([([102], FNum 1 0)], ([(7, [0; 7])], M64 - 1))))) in
   row_ok r1 = true /\ row_ok r2 = true /\ d_batch (e_batch [r1; r2]) = Some [r1; r2] /\
   d_batch (firstn (5 + length (e_row r1)) (e_batch [r1; r2])) = None.
+Proof. vm_compute. repeat split. Qed.
+
+(* ---- data file framing ---- *)
+Theorem C07_chunk_meta_roundtrip : forall m rest, chunk_meta_ok m = true ->
+  d_chunk_meta (e_chunk_meta m ++ rest) = Some (m, rest).
+Proof. exact chunk_meta_roundtrip. Qed.
+Print Assumptions C07_chunk_meta_roundtrip.
+
+Theorem C07_trailer_fixed_roundtrip : forall vs rest, length vs = length trailer_pattern -> Forall (fun v => 0 <= v < M64) vs ->
+  d_fields trailer_pattern (e_fields trailer_pattern vs ++ rest) = Some (vs, rest).
+Proof. intros. apply trailer_fixed_roundtrip; assumption. Qed.
+
+(* pieces written one after the other never overlap and keep file order (offsets monotone) *)
+Theorem C07_layout_monotone : forall pieces off, Sorted.StronglySorted (fun a b => fst a + snd a <= fst b) (lay off pieces).
+Proof. exact lay_sorted. Qed.
+
+(* file_roundtrip, composed from the segment round trip: whatever else a file holds (magic, checksums, metas, bloom
+   filter, trailer = PRaw), every column segment written into it is found at the (offset, size) recorded for it and
+   decodes to the null pattern of its rows and to the block that was stored *)
+Theorem C07_file_roundtrip : forall pieces pre post,
+  Forall2 (fun p e =>
+             match p with
+             | PSeg t m block rows =>
+                 seg_applicable m rows = true ->
+                 seg_dec t (len rows) (slice (fst e) (snd e) (pre ++ concat (map piece_bytes pieces) ++ post))
+                 = Some (validity rows, seg_payload m block rows)
+             | PRaw _ => True
+             end)
+          pieces (lay (len pre) (map piece_bytes pieces)).
+Proof. exact file_roundtrip. Qed.
+Print Assumptions C07_file_roundtrip.
+
+Example C07_ex_chunk_meta :
+  let m : chunk_meta := (7, (16, (33, ([(100, 200)], [([102], (1, ([1;2], [(20, 9)]))); ([116;105;109;101], (1, ([3], [(33, 16)])))])))) in
+  chunk_meta_ok m = true /\ d_chunk_meta (e_chunk_meta m) = Some (m, []) /\ chunk_layout_ok m = true.
 Proof. vm_compute. repeat split. Qed.
 
 (* ---- record.Marshal / record.Unmarshal ---- *)
